@@ -2,7 +2,7 @@
    nothing else.  Statements only; proofs in Convert/ModelQuantize.v.  All statements are
    for every layer list and every dictionary. *)
 From Coq Require Import String List Bool.
-From QV Require Import Convert.ModelQuantize Convert.Adaptive.
+From QV Require Import Convert.ModelQuantize Convert.Adaptive Convert.Relu.
 From QVGen Require Import ConvertGen.
 From QV Require Import Link.ConvertLink.
 Import ListNotations.
@@ -113,3 +113,34 @@ Theorem C12_no_adaptive_no_rejection : forall d m, assoc "QAdaptiveActivation" d
   model_rejected false d m = false.
 Proof. exact no_adaptive_no_rejection. Qed.
 Print Assumptions C12_no_adaptive_no_rejection.
+
+(* ---- the ReLU-layer branch (Convert/Relu.v): Keras ReLU layers looked up under their name, then under QActivation ---- *)
+Theorem C12_relu_branch_is_conservative : forall prefer d bits m, forallb (fun l => negb (String.eqb (l_cls l) "ReLU")) m = true ->
+  convert_model_all prefer d bits m = convert_model_full prefer d bits m.
+Proof. exact convert_model_all_conservative. Qed.
+Print Assumptions C12_relu_branch_is_conservative.
+Theorem C12_all_topology_preserved : forall prefer d bits m, map l_name (convert_model_all prefer d bits m) = map l_name m.
+Proof. exact topology_preserved_all. Qed.
+Print Assumptions C12_all_topology_preserved.
+Theorem C12_relu_unselected_unchanged : forall d l, find_entry d (l_name l) "QActivation" = None -> convert_relu d l = l.
+Proof. exact relu_unselected_unchanged. Qed.
+Print Assumptions C12_relu_unselected_unchanged.
+(* which key of a per-activation map applies is decided by the sign of the layer's slope: a map without a "leakyrelu" entry leaves
+   every ReLU layer with a positive negative_slope untouched, a map without a "relu" entry every plain one *)
+Theorem C12_relu_map_entry_selects_by_slope : forall d l e pos, find_entry d (l_name l) "QActivation" = Some e -> assoc "" e = None ->
+  l_act l = Some (relu_key pos) -> nonempty (assoc (relu_key pos) e) = None -> convert_relu d l = l.
+Proof. exact relu_map_entry_selects_by_slope. Qed.
+Print Assumptions C12_relu_map_entry_selects_by_slope.
+Theorem C12_relu_map_entry_converts : forall d l e pos s, find_entry d (l_name l) "QActivation" = Some e -> assoc "" e = None ->
+  l_act l = Some (relu_key pos) -> nonempty (assoc (relu_key pos) e) = Some s ->
+  convert_relu d l = L "QActivation" (l_name l) (l_use_bias l) (Some s) None None.
+Proof. exact relu_map_entry_converts. Qed.
+Print Assumptions C12_relu_map_entry_converts.
+Theorem C12_relu_string_entry_converts : forall d l e s, find_entry d (l_name l) "QActivation" = Some e -> assoc "" e = Some s -> s <> "" ->
+  convert_relu d l = L "QActivation" (l_name l) (l_use_bias l) (Some s) None None.
+Proof. exact relu_string_entry_converts. Qed.
+Print Assumptions C12_relu_string_entry_converts.
+Theorem C12_relu_ignores_adaptive_entries : forall d l e, l_name l <> "QAdaptiveActivation" ->
+  assoc (l_name l) d = None -> assoc "QActivation" d = None -> convert_relu (("QAdaptiveActivation", e) :: d) l = l.
+Proof. exact relu_ignores_adaptive_entries. Qed.
+Print Assumptions C12_relu_ignores_adaptive_entries.
